@@ -59,3 +59,11 @@ package service
 //@   ensures data: result.ExtensionFields.TerminalData == terminalData
 //@   ensures seq: result.ExtensionFields.TerminalSeq == jtMsg.Header.SerialNumber && result.Command == jtMsg.Header.ID
 //@   ensures flags: !result.ExtensionFields.SubcontractComplete && !result.ExtensionFields.ActiveSend
+
+// ---------------------------------------------------------------------------------------------
+// C06: platform serial numbers: every written frame takes the current counter, which then advances by one (mod 2^16)
+// ---------------------------------------------------------------------------------------------
+//@ func (*connection).curSeq
+//@   modifies c.platformSerialNumber
+//@   ensures C06.value: result == old(c.platformSerialNumber)
+//@   ensures C06.next: c.platformSerialNumber == old(c.platformSerialNumber) + 1
